@@ -49,6 +49,7 @@ func (r *run) judge() {
 	nonces := map[string]*nonceRec{}
 	released := map[string][]*exchange{} // flow name -> successful credential exchanges
 	proofSeen := map[string]*exchange{}
+	proofSent := map[string]*exchange{} // proof JWT -> first credential request to the issuer that carried it
 	nTokOK, nNonceOut, nPanic := 0, 0, 0
 	for _, x := range w.net.log {
 		u, _ := url.Parse(x.URL)
@@ -133,6 +134,17 @@ func (r *run) judge() {
 					nonces[n] = &nonceRec{flow: t.flow, at: x.VNow, life: life}
 				}
 				nNonceOut++
+			}
+			{
+				var pr struct {
+					Proof *struct {
+						Jwt string `json:"jwt"`
+					} `json:"proof"`
+				}
+				_ = json.Unmarshal(x.Body, &pr)
+				if pr.Proof != nil && pr.Proof.Jwt != "" && proofSent[pr.Proof.Jwt] == nil {
+					proofSent[pr.Proof.Jwt] = x
+				}
 			}
 			if x.Status != 200 {
 				continue
@@ -226,11 +238,16 @@ func (r *run) judge() {
 			}
 			// R4: the attacker obtains only credentials offered to him
 			if who == "A" && f.subj != w.A {
-				how := "other"
+				how, origin := "other", "attacker"
 				if rp.kidDID == w.W.id.String() && rp.sigOK {
-					how = "replayed-wallet-proof"
+					// a proof the wallet made: did the wallet send it to THIS issuer in a request that was served (replay),
+					// or did the attacker get it some other way (the wallet was made to sign it for him: relay)?
+					how, origin = "replayed-wallet-proof", "relayed"
+					if prev := proofSent[cr.Proof.Jwt]; prev != nil && prev != x && prev.From == "NW" {
+						origin = "served-request"
+					}
 				}
-				r.violate("credential-to-non-subject", map[string]interface{}{"how": how, "proof_audience": r.audName(rp.aud)},
+				r.violate("credential-to-non-subject", map[string]interface{}{"how": how, "proof_audience": r.audName(rp.aud), "proof_origin": origin},
 					fmt.Sprintf("the attacker obtained the credential offered to %s (token %v, proof kid %s)", f.subj.name, r.tokID[bearer], rp.kid))
 			}
 			// R3: a proof is honoured once
